@@ -1,3 +1,53 @@
-NOTES = "Runtime monitoring of python-jsonpath; see DESIGN.md. Every check exits 0 (held on what was observed), 1 (VIOLATION lines) or 2 (INCONCLUSIVE: a deciding monitor was never reached)."
+NOTES = ("Runtime monitoring of python-jsonpath; see DESIGN.md. Every check shards a seeded hostile workload over 16 processes against the real library "
+         "imported from /repo's working tree, decides each execution with a reference-model or differential oracle, records which cells of the mechanism "
+         "were reached (hook matrices, sys.monitoring line/raise/call censuses) and replays the witness corpus of repaired defects. Exit 0 = held on what "
+         "was observed, 1 = VIOLATION lines with replay files, 2 = INCONCLUSIVE (a deciding monitor was never reached). 39 genuine defects found by these "
+         "checks on the pinned tree were repaired with fix: commits (known_findings.json); no finding is open.")
 NOT_YET = {}
-CHECKS = {}
+BASE_NOTE = "trusted base: CPython 3.12 (sys.monitoring, asyncio, json), the reference models in rt/ (self-tested against the RFC example tables by setup_cmd), the harness's strict JSON equality; bounded by the generators' sizes (documents depth <= 5 / <= 60 in the depth class, short queries, integers within +-2^53)"
+def C(text, technique, note=""):
+    return {"category": "exploration", "text": text, "technique": technique, "note": (note + "; " if note else "") + BASE_NOTE}
+CHECKS = {
+ "C01": C("held on every observed execution: ~10^5 (quick) rendered (query text, document) pairs incl. the complete slice space {-7..7,omitted}^3 x lengths 0..6, every selector kind x value kind, every hostile name in every spelling, compared node-for-node (location, identity) with an RFC 9535 reference evaluator that never parses text; H1 proves each selector met each value kind, H2 checks the location invariant on every match constructed",
+          "reference-model differential monitoring (AST evaluator vs library on rendered spellings) + selector/value-kind hook matrix"),
+ "C02": C("held on every observed execution: the comparison table enumerated completely (24x24 values x 6 operators x operand forms) plus typed random filter trees and directed existence/nesting/precedence/function classes, against RFC 9535 filter semantics; H3 proves every (operator, kind, kind) cell was reached inside env.compare",
+          "reference-model differential monitoring + comparison-cell hook matrix"),
+ "C03": C("held on every observed match: normalized-path grammar, re-evaluation of the path returns exactly that node (identity), parts/pointer/re-parsed pointer text resolve to it, parent is one step shorter, equal paths <=> same node; H2 runs online on every match object",
+          "boundary oracle over recorded matches + online location-invariant hook"),
+ "C04": C("held on every observed resolution: every node of every generated document through four entry points and both decoding modes, and every look-alike one-token mutation the RFC 6901 model calls unevaluable (resolution error, default returned, exists false)",
+          "reference-model differential monitoring of pointer resolution with a token-class x container census"),
+ "C05": C("held on every observed application: ~70k single operations enumerated completely over a document universe plus sampled operation histories, against a pure RFC 6902 model; results must be JSON trees without shared structure",
+          "reference-model differential monitoring over enumerated operations and sampled histories"),
+ "C06": C("held on every observed call: mutation/token-soup fuzzing of queries, pointers, relative pointers and patch lists with every boundary call classified by exception family, error rendering exercised, a per-case watchdog whose expiry is only confirmed as a hang after an isolated re-run; the RAISE census lists the built-in exceptions that were raised inside jsonpath and translated",
+          "fuzzing under a boundary exception-family monitor + sys.monitoring RAISE census + bounded-progress watchdog"),
+ "C07": C("held on every observed compile: labelled ill-typed programs (rule x position), random single-site mutations of well-typed trees classified by an independent RFC 9535 2.4.3 checker, integer bounds at/inside/outside default and narrowed limits, syntactic rejects; H5 evaluate counter stayed 0 during every compile",
+          "independent type-checker oracle over generated programs + evaluate-counter hook"),
+ "C08": C("held on every observed pair: sync vs async outcome (values, order, paths, parts, error kind) for generated standard/extended/compound queries over plain, async-getter and fault-injecting documents, gathered 8 at a time with seeded yields; T3 proves every *_async function and its twin was entered",
+          "sync/async differential monitoring with fault and yield injection + twin-coverage census"),
+ "C09": C("held on every observed history: compiled queries reused over document/context histories (sync and async), interleaved lazy iterators (exhaustive for tiny cases), 8 threads with LINE-event yield injection, gathered tasks; document/context/compiled-object snapshots; H4 re-computes every cache hit and checks each cache cell sees one (root, context)",
+          "history replay against a solo cache-off reference + online cache-cell monitor + yield-injected thread/task interleavings"),
+ "C10": C("held on every observed accepted query (generated standard, extension, directed, fuzz-accepted): string form recompiles, is a fixed point, and evaluates identically on the case's documents and a pool",
+          "round-trip differential monitoring (compile -> str -> compile) over generated and fuzz-accepted queries"),
+ "C11": C("held on every observed (query, document): three API layers x {findall, finditer, match, query} x five document forms equal the left-to-right fold of the operands' own finditer results",
+          "entry-point differential monitoring against a fold model of per-operand results"),
+ "C12": C("held on every observed chain: all chains up to length 2 (quick) / 3 (thorough) over 9 operations x 7 counts x lengths 0..5 x 8 terminals enumerated completely, plus sampled long chains with shuffled consumption of take/tee children, against a list model",
+          "list-model monitoring of enumerated and sampled operation chains with a counting source probe"),
+ "C13": C("held on every observed execution: each documented extension in each position against the extension-mode reference model, and every alias spelling against its standard spelling",
+          "reference-model + alias/standard differential monitoring"),
+ "C14": C("held on every observed pointer: all 8421 token sequences of length <= 3 over a 20-token alphabet x 2 decoding modes x 7 construction routes; print/parse, equality, join/parent/relative and resolution laws",
+          "law checking over an enumerated token-sequence space across construction routes"),
+ "C15": C("held on every observed patch: five construction forms print the given operations and have the model's effect; three applications of one patch object to equal documents are equal and share no structure with each other, the patch or the caller's list; an icontract snapshot/ensure contract on JSONPatch.apply checks the patch is unchanged",
+          "reference-model differential monitoring + icontract snapshot contract + alias detector over repeated applications"),
+ "C16": C("held on every observed application: all (base, steps, offset, suffix) combinations to depth 2 enumerated, depth 3 sampled, through four application routes, against a model of the draft; print/parse round trip; forbidden applications raise the relative-pointer error",
+          "reference-model differential monitoring over an enumerated parameter space"),
+ "C17": C("held on every observed (assignment, query, document): custom-token environment vs default environment on the same AST, and string form recompiled in the custom environment",
+          "configuration differential monitoring over generated token assignments"),
+ "C18": C("held on every observed invocation: the full option product of each sub-command in-process plus a subprocess sample, against the library call with the same options; exit status, stream separation, output shape",
+          "in-process CLI driving under monitors + subprocess sampling against a library-call oracle"),
+ "C19": C("held on every observed projection: generated and directed (document, match query, relative queries, style) cases against a rank-compaction model; document snapshot unchanged in every case",
+          "reference-model differential monitoring + document snapshot monitor"),
+ "C20": C("held on every observed match: test/replace/remove through match.pointer() equal the edit made by walking match.parts on a deep copy; nothing else changes",
+          "pipeline differential monitoring against direct edits by location"),
+}
+for v in CHECKS.values():
+    v["text"] += ". This is exploration-level assurance: a clean run means held on the executions listed in the evidence file, nothing more."
